@@ -265,7 +265,11 @@ func genTable(r *rng, idx int, n int) srvCase {
 // ---------------------------------------------------------------- scenario: method x argument lattice
 func genMethods(r *rng, idx int) srvCase {
 	c := srvCase{idx: idx, cfg: baseCfg(r, "methods")}
-	switch r.intn(8) {
+	switch r.intn(10) {
+	case 8, 9:
+		// passive AND a query hook that lets everything through: still silent
+		c.cfg.passive = true
+		c.cfg.veto = []string{"__no_such_method__"}
 	case 0:
 		c.cfg.passive = true
 	case 1:
